@@ -396,19 +396,26 @@ func c20MergeRace(c *fw.Ctx, round int) {
 			}
 			payloads[i] = kit.EncodeEvent(ev)
 		}
+		// odd rounds: one kind per payload, so that merges of the same kind are not staggered by the
+		// locks of the kinds merged before it
+		if r%2 == 1 {
+			for i := 0; i < k; i++ {
+				ev, _ := kit.DecodeEvent(payloads[i])
+				payloads[i] = kit.EncodeEvent(&api.StateBroadcastEvent{RetainedMessages: ev.RetainedMessages})
+				payloads = append(payloads, kit.EncodeEvent(&api.StateBroadcastEvent{Subscriptions: ev.Subscriptions}), kit.EncodeEvent(&api.StateBroadcastEvent{SessionMetadatas: ev.SessionMetadatas}))
+			}
+		}
 		var wg sync.WaitGroup
 		startCh := make(chan struct{})
-		for g := 0; g < k; g++ {
+		nG := 10
+		for g := 0; g < nG; g++ {
 			wg.Add(1)
 			go func(g int) {
 				defer wg.Done()
+				order := c.SubRng(fmt.Sprintf("c20/mr/%d/%d", round, r), g).Perm(len(payloads))
 				<-startCh
-				// goroutine g delivers update g first, then the others
-				a.Deliver(payloads[g])
-				for i := 0; i < k; i++ {
-					if i != g && (i+g)%2 == 0 {
-						a.Deliver(payloads[i])
-					}
+				for _, i := range order {
+					a.Deliver(payloads[i])
 				}
 			}(g)
 		}
